@@ -46,8 +46,22 @@ type Op struct {
 	// Clock: the simulated clock / randomness streams this operation got, kept
 	// in explicit (replay) form only when the operation actually used them
 	Clock *ClockJ `json:"clock,omitempty"`
-	Noise string  `json:"noise,omitempty"` // limit-query | limit-schema | fmt-schema | fmt-doc | vars | argmaps | rules | json
+	Noise string  `json:"noise,omitempty"` // limit-query | limit-schema | fmt-schema | fmt-doc | vars | argmaps | rules | json | prefix-load
 	Arg   uint64  `json:"arg,omitempty"`
+	// Depth: extra stack frames between the harness and the library call (the
+	// caller's stack depth is part of the environment a result must not depend on)
+	Depth int `json:"depth,omitempty"`
+}
+
+// atDepth calls f with n extra frames on the stack.
+//
+//go:noinline
+func atDepth(n int, f func()) {
+	if n <= 0 {
+		f()
+		return
+	}
+	atDepth(n-1, f)
 }
 
 type ClockJ struct {
@@ -269,7 +283,7 @@ func (x *execState) runOp(i int, capture bool) (res opResult) {
 	src := func() []*ast.Source { return x.schemaSource(op.S) }
 	switch op.Kind {
 	case "noise":
-		if op.Noise != "limit-query" && op.Noise != "limit-schema" && op.Noise != "replace-rule" && x.schemas[op.S] == nil {
+		if op.Noise != "limit-query" && op.Noise != "limit-schema" && op.Noise != "replace-rule" && op.Noise != "prefix-load" && x.schemas[op.S] == nil {
 			res.skipped = true
 			return
 		}
@@ -306,6 +320,25 @@ func (x *execState) runOp(i int, capture bool) (res opResult) {
 		}
 	}()
 	pan := protect(func() {
+		atDepth(op.Depth, func() { x.runKind(i, op, lkey, vkey, src, &res) })
+	})
+	if pan != "" {
+		// a panic is the library's answer for these texts (C02's subject, not
+		// C10's): it is compared like any other result
+		k := vkey
+		if op.Kind == "load" || (op.Kind == "fresh" && len(res.obs) == 0) {
+			k = lkey
+		}
+		res.obs = append(res.obs, Obs{k, pan, i})
+		panicsSeen++
+	}
+	return
+}
+
+// runKind makes the library calls of one operation.
+func (x *execState) runKind(i int, op Op, lkey, vkey string, src func() []*ast.Source, res *opResult) {
+	s := x.sess
+	{
 		switch op.Kind {
 		case "load":
 			sc, err := gqlparser.LoadSchema(src()...)
@@ -340,18 +373,7 @@ func (x *execState) runOp(i int, capture bool) (res opResult) {
 		default:
 			res.skipped = true
 		}
-	})
-	if pan != "" {
-		// a panic is the library's answer for these texts (C02's subject, not
-		// C10's): it is compared like any other result
-		k := vkey
-		if op.Kind == "load" || (op.Kind == "fresh" && len(res.obs) == 0) {
-			k = lkey
-		}
-		res.obs = append(res.obs, Obs{k, pan, i})
-		panicsSeen++
 	}
-	return
 }
 
 var panicsSeen int
@@ -389,6 +411,12 @@ func (x *execState) noise(op Op) {
 			if d := x.docs[[2]int{op.S, op.D}]; d != nil {
 				var b strings.Builder
 				formatter.NewFormatter(&b).FormatQueryDocument(d)
+			}
+		case "prefix-load":
+			// a shorter source list that shares its backing array with the list
+			// this session keeps loading (in sessions that reuse their sources)
+			if src := x.schemaSource(op.S); len(src) > 1 {
+				gqlparser.LoadSchema(src[:r.Range(1, len(src)-1)]...)
 			}
 		case "replace-rule":
 			// a neutral replacement: the same function under the same name
@@ -440,7 +468,7 @@ func (x *execState) noise(op Op) {
 	})
 }
 
-var noiseKinds = []string{"limit-query", "limit-schema", "fmt-schema", "fmt-doc", "vars", "argmaps", "rules", "json", "replace-rule"}
+var noiseKinds = []string{"limit-query", "limit-schema", "fmt-schema", "fmt-doc", "vars", "argmaps", "rules", "json", "replace-rule", "prefix-load"}
 
 type sessionRun struct {
 	clocks     []*ClockJ // per op, when used
@@ -671,6 +699,9 @@ func genSession(seed uint64, source string) *Session {
 		if k == "noise" {
 			op.Noise = gen.Pick(r, noiseKinds)
 			op.Arg = r.U64()
+		}
+		if r.Chance(1, 3) {
+			op.Depth = gen.Pick(r, []int{25, 120, 235, 250, 400, 1000})
 		}
 		if k != "load" {
 			if nd == 0 {
